@@ -367,7 +367,7 @@ func checkC14(r *Run) {
 		Instrs(f, func(in ssa.Instruction) {
 			if s, ok := in.(*ssa.Store); ok && P.TermAt(s.Addr, s).String() == "&addr:res.Value" {
 				v := P.TermAt(s.Val, s).String()
-				ok2 := v == p+"#0" || v == "nil" || v == "store/iavl.Tree.GetVersioned(param:st.tree, param:req.Data, "+h+")#1" || strings.HasPrefix(v, "(*github.com/tendermint/go-amino.Codec).MustMarshalBinaryLengthPrefixed(")
+				ok2 := v == p+"#0" || v == "nil" || v == "store/iavl.Tree.GetVersioned(param:st.tree, param:req.Data, "+h+")#1" || strings.HasPrefix(v, "(*github.com/tendermint/go-amino.Codec).MarshalBinaryLengthPrefixed(")
 				r.Check(ok2, "C14-R1", "Query/value-source:"+v[:min(len(v), 40)], P.InstrPos(s), v, "res.Value is assigned "+v)
 			}
 		})
